@@ -36,7 +36,7 @@ type c09Params struct {
 
 func c09World(t *testing.T, p c09Params) rt.Result {
 	r := rt.Get().Rand("c09w", int(p.Seed))
-	out := hz.Run(t, hz.Opts{Seed: p.Seed, HookMode: p.Hook, WriteYields: 3, EOFWithData: p.Seed%3 == 0}, func(w *hz.World) {
+	out := hz.Run(t, hz.Opts{Seed: p.Seed, HookMode: p.Hook, WriteYields: 3, EOFWithData: mix(p.Seed)%3 == 0}, func(w *hz.World) {
 		ps := hz.StdPeer("10.0.1.1")
 		ps.Cfg.ProbeWriteInClose = true
 		v := pickVariety(r, p.Dir)
